@@ -50,7 +50,23 @@ namespace occa {
     }
 
     void sizeofNode::print(printer &pout) const {
-      pout << "sizeof(" << *value << ')';
+      // sizeof(x) is parsed as sizeof applied to the parenthesized x and
+      //   sizeof x as sizeof applied to x: only add parentheses around operands
+      //   that need them, otherwise every print + parse adds another pair
+      const udim_t valueType = value->type();
+      if (valueType & exprNodeType::parentheses) {
+        pout << "sizeof" << *value;
+      } else if (valueType & (exprNodeType::binary    |
+                              exprNodeType::ternary   |
+                              exprNodeType::type      |
+                              exprNodeType::vartype   |
+                              exprNodeType::parenCast |
+                              exprNodeType::throw_    |
+                              exprNodeType::lambda)) {
+        pout << "sizeof(" << *value << ')';
+      } else {
+        pout << "sizeof " << *value;
+      }
     }
 
     void sizeofNode::debugPrint(const std::string &prefix) const {
